@@ -923,7 +923,7 @@ func (fr *Frame) aliveNow(x *Term, t types.Type) {
 	}
 	alive := fr.cur.get("alive", SArray(SRef, SBool))
 	switch u := t.Underlying().(type) {
-	case *types.Pointer:
+	case *types.Pointer, *types.Map:
 		c.assume(Or(Eq(x, BVLit(0, 64)), Select(alive, x)))
 	case *types.Slice:
 		a := DataField_(x, 0)
